@@ -232,6 +232,9 @@ type RScen struct {
 	MaxOut   int           `json:"max_out,omitempty"`
 	Extra    int           `json:"extra,omitempty"`     // further Reads after the first error (default 3)
 	CloseEnd bool          `json:"close_end,omitempty"` // call Close after the stickiness reads
+	// ExtraBetween (NoMulti): further Reads after each member's io.EOF, before
+	// the next Reset; each must return (0, io.EOF) and consume nothing.
+	ExtraBetween int `json:"extra_between,omitempty"`
 }
 
 type MemberRec struct {
@@ -263,6 +266,7 @@ type RRec struct {
 	ResetErr          error       // NoMulti: error of the last Reset
 	Src               *kern.SimSource
 	ReadAfterEndCalls int
+	BetweenBad        string
 }
 
 type byteReaderSrc struct {
@@ -608,6 +612,15 @@ func RunR(t *kern.Task, log *kern.Log, sc *RScen, fast bool) (rec *RRec) {
 			rec.Members = append(rec.Members, m)
 			rec.Out = append(rec.Out, m.Out...)
 			log.Ev(tid, kern.EvOp, len(m.Out), len(m.Kind), "member "+m.Kind)
+			if m.Err == io.EOF {
+				for i := 0; i < sc.ExtraBetween; i++ {
+					var b [16]byte
+					n, e := rd.rd.Read(b[:])
+					if n != 0 || e != io.EOF {
+						rec.BetweenBad = fmt.Sprintf("Read #%d after member %d's io.EOF returned (%d, %v)", i+1, len(rec.Members)-1, n, e)
+					}
+				}
+			}
 			if m.Err != io.EOF || rec.TooBig || rec.Livelock || len(rec.Members) > 64 || (sc.Members > 0 && len(rec.Members) >= sc.Members) {
 				rec.Err, rec.Kind = m.Err, m.Kind
 				break
